@@ -35,6 +35,8 @@ SCHEMES = [("plain", "shared"), ("quote", "text"), ("nonutf8", "crlf"), ("utf8",
            ("plain", "linkdir"), ("nonutf8", "shared"), ("quote", "crlf"), ("utf8", "text"), ("plain", "binary")]
 CHECKOUT_HOW = ("checkout", "reset", "build", "switch")
 SWITCH_HOW = ("checkout", "reset", "switch")
+EFFECT_SITE = {"Unstage": "dulwich/worktree.py:unstage", "RmCached": "dulwich/porcelain/__init__.py:remove", "Commit": "dulwich/worktree.py:commit",
+               "ResetMixed": "dulwich/porcelain/__init__.py:reset"}
 SITE_STATUS = {"add": "dulwich/index.py:changes_from_tree", "del": "dulwich/index.py:changes_from_tree", "mod": "dulwich/index.py:changes_from_tree",
                "unstaged": "dulwich/index.py:get_unstaged_changes", "untracked": "dulwich/porcelain/__init__.py:get_untracked_paths",
                "normdir": "dulwich/porcelain/__init__.py:get_untracked_paths", "normfile": "dulwich/porcelain/__init__.py:get_untracked_paths"}
@@ -246,6 +248,9 @@ def run_chunk(task: dict):
                     sig_tail += f" via={ev['act']}:{how}"
                 elif c in ("StageAllComplete", "StageComplete"):
                     site = "dulwich/porcelain/__init__.py:add"
+                elif c == "EditEffect":
+                    site = EFFECT_SITE.get(ev["act"], "?")
+                    sig_tail = sig_tail.replace("EditEffect.", f"EditEffect.{ev['act']}.", 1)
                 else:
                     site = SITE_STATUS.get(f, "dulwich/porcelain/__init__.py:status")
                 got = (ev["rep"] or {}) if c != "StatusExactNormal" else sorted(ev.get("norm") or ())
@@ -584,7 +589,7 @@ def with_schemes(step_lists, opts_fn, schemes, offset=0):
     return out
 
 
-def absorb(ctx, results, seen_drift):
+def absorb(ctx, results):
     agg = {}
     for r in results:
         for m in r["machinery"]:
@@ -684,7 +689,7 @@ def run(ctx):
         ctx.add_tlc("edits4 (4 trees, every action, 4 steps after checkout; model level only)", f_e4.result())
     ctx.add_tlc("bridge to TreeDiff (all pairs of maps: the tree identifies the map; staged classes = tree diff)", f_br.result())
     tp.shutdown()
-    absorb(ctx, results, set())
+    absorb(ctx, results)
     ctx.cov["rule"] = ("an execution = one behaviour (checkout, then edits / index operations / switches) carried out on a real repository; distinct = distinct "
                        "(naming and content scheme, entry-point variants, action sequence with arguments); all are non-trivial (each performs at least a checkout and one status call "
                        "judged against the specification)")
@@ -704,21 +709,46 @@ def run(ctx):
 
 
 def replay(ctx, path):
+    """Re-execute one recorded case: print every step (action, projected triple, what status and
+    git said), then judge it exactly as the run does.  Exit 1 when the recorded signature (or any
+    finding that is not a listed known finding) shows again."""
+    import fnmatch
     obj = json.load(open(path))
-    print(json.dumps({k: v for k, v in obj.items() if k != "got"}, indent=1)[:5000])
+    print(f"recorded: {obj.get('signature')}\n  {obj.get('what')}\n  clause={obj.get('clause')} step={obj.get('step')} seed={obj.get('seed')} tier={obj.get('tier')}")
     meta = obj.get("meta")
     if not meta:
+        print("no behaviour recorded in this file")
         return 1
     steps = [deser_step(s) for s in meta["steps"]]
-    ctx.known = []
-    beh = {"steps": steps, "scheme": tuple(meta["scheme"]), "opts": meta["opts"]}
-    res = run_chunk({"label": "replay", "executor": meta.get("executor", "dulwich"), "scratch": ctx.scratch, "behaviours": [beh], "large": meta.get("large", 200_000)})
+    scheme, opts, large = tuple(meta["scheme"]), meta["opts"], meta.get("large", 200_000)
+    print(f"scheme={scheme} entry points={opts} executor={meta.get('executor', 'dulwich')}")
+    w = _world(ctx.scratch, scheme[0], scheme[1], large)
+    ex = GitExec(w) if meta.get("executor") == "git" else DulExec(w)
+    run = execute(w, ex, steps, dict(opts, git_every=True, normal=True))
+    for k, ev in enumerate(run["events"]):
+        arg = "/".join(ev["p"]) + (" -> " + "/".join(ev["q"]) if ev["q"] else "") + (f" {ev['cell'][0]}{ev['cell'][1]}" if ev["cell"] else "")
+        print(f"step {k}: {ev['act']} {arg}" + (f" tree={fmt_map(ev['tree'])}" if ev["tree"] is not None else ""))
+        print(f"    HEAD  {fmt_map(ev['h'])}\n    index {fmt_map(ev['i'])}\n    dir   {fmt_map(ev['w'])}")
+        if ev.get("status_exc"):
+            print(f"    porcelain.status raised {ev['status_exc']['exc']}: {ev['status_exc']['msg']}")
+        print(f"    porcelain.status {fmt_rep(ev['rep'])}  normal-mode untracked {sorted(('/'.join(p) + ('/' if d else '')) for p, d in (ev.get('norm') or ()))}")
+        print(f"    git status       {fmt_rep(ev.get('git'))}" + (f"  Index.commit={ev.get('tree_id')} git write-tree={ev.get('git_tree_id')}" if "tree_id" in ev else ""))
+    if run["stop"]:
+        st = run["stop"]
+        print(f"stopped at step {st['at']} ({st['act']}): {st['kind']}" + (f" {st.get('exc')}: {st.get('msg')}\n{st.get('tb', '')}" if st["kind"] != "diverged" else ""))
+    beh = {"steps": steps, "scheme": scheme, "opts": dict(opts, git_every=True, normal=True)}
+    res = run_chunk({"label": meta.get("label", "replay"), "executor": meta.get("executor", "dulwich"), "scratch": ctx.scratch, "behaviours": [beh], "large": large})
     for m in res["machinery"]:
-        print("MACHINERY:", m)
+        print("MACHINERY:", m[:2000])
+    rc = 0
     for f in res["findings"]:
-        print(f"step {f['step']} {f['clause']}: {f['sig']}\n   {f['what']}\n   got: {str(f['got'])[:1500]}")
-        ctx.violation(f["sig"], f["what"], {"clause": f["clause"], "step": f["step"], "got": f["got"], "meta": f["meta"]})
+        known = [k for k in ctx.known if k.get("status", "open") == "open" and (f["sig"] == k["signature"] or fnmatch.fnmatchcase(f["sig"], k["signature"]))]
+        tag = "known finding" if known else "NOT LISTED"
+        same = f["sig"] == obj.get("signature")
+        print(f"judged: step {f['step']} {f['clause']} [{tag}{', the recorded signature' if same else ''}]\n   {f['sig']}\n   {f['what']}")
+        if same or not known:
+            rc = 1
     for d in res["drift"]:
-        print("DRIFT:", d)
-    print(f"replayed {res['n_steps']} steps, {res['n_events']} events judged; findings={len(res['findings'])}")
-    return 1 if res["findings"] else 0
+        print("DRIFT:", d[:1500])
+    print(f"replayed {res['n_steps']} steps, {res['n_events']} events judged by TLC; findings={len(res['findings'])}; verdict={'reproduced' if rc else 'not reproduced'}")
+    return rc
